@@ -1169,6 +1169,18 @@ def r6(ctx, sc):
 
 # ---------------------------------------------------------------- R7
 
+def through_temp(fn, v, depth=0):
+    """v, or the value assigned to the named temporary v is loaded from (`char *end = &buf->yy_ch_buf[n]; if (p <= end)`:
+    one assignment, address never taken, not a parameter spill) - neutral diff m2P4"""
+    if depth > 3 or not (isinstance(v, tuple) and v[0] == 'reg'): return v
+    d = fn.def_of(v)
+    if d is None or d.op != 'load' or not (isinstance(d.ops[0], tuple) and d.ops[0][0] == 'reg'): return v
+    a_ = fn.def_of(d.ops[0])
+    if a_ is None or a_.op != 'alloca' or str(a_.res).endswith('.addr'): return v
+    tv = flow.named_temporary(fn, d)
+    if tv is None or tv[0] != 'reg' or fn.def_of(tv) is None: return v
+    return through_temp(fn, tv, depth + 1)
+
 def r7(ctx, sc):
     """the decision to refill - the comparison of yy_c_buf_p with the end of the valid text that guards every call of
     yy_get_next_buffer in yylex and yyinput - reads the count from the scanner register yy_get_next_buffer maintains;
@@ -1190,7 +1202,7 @@ def r7(ctx, sc):
                     for x, y in ((d.ops[0], d.ops[1]), (d.ops[1], d.ops[0])):
                         dx = fn.def_of(x)
                         if dx is None or dx.op != 'load' or cell_role(a.loc(dx.ops[0])) != 'CBUFP': continue
-                        g = fn.def_of(y)
+                        g = fn.def_of(through_temp(fn, y))
                         if g is None or g.op != 'getelementptr' or len(g.ops) != 2: continue
                         bd = fn.def_of(g.ops[0])
                         if bd is None or bd.op != 'load' or cell_role(a.loc(bd.ops[0])) != 'CHBUF': continue
